@@ -174,6 +174,20 @@ CHECKS['C08'] = dict(
     technique="Coq proof (simulation between the expansion stack and hide sets, object-like fragment) + three-way differential check parse_file -E / extracted model / gcc -E; gcc-differential testing for function-like fragments",
     ref="5/C08")
 
+CHECKS['C04'] = dict(
+    text="Proof (partial): the export gates of InterrogateBuilder (scan_function, define_method, scan_struct_type, scan_enum_type/scan_manifest/scan_element) transcribed as boolean "
+         "functions of a declaration's facts are proved equivalent to the property's statement (named file, not a .C file, not ignorefile, visibility >= requested, not "
+         "static/deleted/template/ignoremember, signature mentioning no protected/private class ANYWHERE - proved by induction over the type structure incl. arrays, pointers, references, "
+         "typedefs, function types -, no rvalue reference, nothing under ignoreinvolved) for global functions, methods (outside the two deliberate exceptions), classes and simple "
+         "declarations; corollary: nothing private/protected/deleted/non-local is exported by these gates; the destructor and get_class_type exceptions and the pinned array blind spot "
+         "are refuted by witnesses. Correspondence: generated worlds (command-line / cwd / -I / -S files, shuffled sections, publish regions, protected nested classes used by pointer, "
+         "reference, array, typedef, rvalue references, static/deleted/template members, .N commands, -promiscuous): every entity is in the database iff the extracted gate says so and "
+         "iff the property says so.",
+    note=TB + "the facts come from the generator (it knows what it wrote); inherited virtual methods, forcetype/renametype, namespaces, typedef exports and template instantiations are "
+         "not generated.",
+    technique="Coq proof (gate = statement, induction over signature types) + extracted-gate / database differential check over generated file trees",
+    ref="5/C04")
+
 PENDING = {
 }
 
